@@ -716,7 +716,13 @@ impl Callable for Abs {
             return Err(EvaluationError::InvalidArguments(ScalarFunction::Abs));
         };
 
-        let first = &args[0];
+        // the smallest INT / BIGINT has no absolute value of its own type (`abs` would overflow): the result is a
+        // DOUBLE in any case, which holds 2^31 and 2^63 exactly
+        let first = match &args[0] {
+            DataType::Int(i) if i.0 == i32::MIN => return Ok(DataType::BigInt(Int64(-(i.0 as i64)))),
+            DataType::BigInt(i) if i.0 == i64::MIN => return Ok(DataType::Double(crate::Float64(-(i.0 as f64)))),
+            other => other,
+        };
         Ok(first.abs())
     }
 }
